@@ -122,6 +122,10 @@ EXTRA_BODY = [
     {"type": "object", "properties": {"a": {"type": "integer"}}, "required": ["a"], "additionalProperties": False},
     {"anyOf": [{"type": "integer", "minimum": 10}, {"type": "string", "maxLength": 2}]},
     {"oneOf": [{"type": "integer", "multipleOf": 2}, {"type": "string", "minLength": 1}]},
+    # a value taken from one branch may violate the whole schema: overlapping oneOf branches, keywords next to the combinator
+    {"oneOf": [{"type": "integer", "minimum": 0, "maximum": 5}, {"type": "number", "minimum": -1, "maximum": 1}]},
+    {"anyOf": [{"type": "integer", "minimum": 5}, {"type": "integer", "minimum": 7}], "maximum": 6},
+    {"anyOf": [{"type": "string", "minLength": 4}, {"type": "string", "pattern": "^[a-z]+$"}], "maxLength": 3},
     {"allOf": [{"type": "object", "properties": {"a": {"type": "integer"}}, "required": ["a"]}, {"type": "object", "properties": {"b": {"type": "string"}}, "required": ["b"]}]},
     {"type": "object", "nullable": True, "properties": {"x": {"type": "integer"}}, "required": ["x"]},
 ]
